@@ -150,6 +150,23 @@ PROPS["C03"] = {
         "Lace.C03.fetch_in_bounds",
         "Lace.C03.run_panic_only_rti",
         "Lace.C02.execute_eq_isa",
+        "Lace.C03.terminal_key_consumes_n_reads",
+        "Lace.C03.terminal_reads_eq_pipe_reads",
+        "Lace.C03.typed_reads_eq_pipe_reads",
+        "Lace.C03.counter_bounded",
+        "Lace.C03.ignored_event_consumes_nothing",
+        "Lace.C03.buffered_read_consumes_no_event",
+        "Lace.C03.nul_yields_zero",
+        "Lace.C03.enter_yields_newline",
+        "Lace.C03.ctrl_c_exits",
+        "Lace.C03.terminal_read_no_panic",
+        "Lace.C03.readCharLoop_eq_readKey",
+        "Lace.C03.delivers_eq",
+        "Lace.C03.isCtrlC_iff",
+        "Lace.C03.execute_inp_frame",
+        "Lace.C03.terminal_run_eq_pipe_run",
+        "Lace.C03.terminal_process_eq_pipe_process",
+        "Lace.C03.typed_process_eq_pipe_process",
     ],
     "also": ["C03T"],
     "needs_bin": True,
@@ -169,6 +186,7 @@ PROPS["C03"] = {
         "Lean re-implementations of Rust integer formatting ({:04x}, {:03b}, {} of i16)",
         "the literal pieces of the normal-mode REG table are shared by specification and model (Lace/Basic/Tables.lean)",
         "stderr messages (exception text, LineTracker newlines) are not modelled",
+        "crossterm's decoding of terminal bytes into key events (the driver's eventsOfTyped applies the single-character rules of crossterm 0.28's unix parser to the typed text of C03T requests)",
     ],
     "assumptions": [
         "GETC/IN: non-ASCII byte gives xFFFD; end of input is an emulator error (exit status 1)",
